@@ -660,7 +660,7 @@ const RULE: &str = "every buffer of length <= N over the 12 significant octets {
 pub fn run(ctx: Ctx) -> ! {
     model::self_test();
     // Non-termination is a violation too ("terminates without panicking").
-    watchdog::spawn_monitor("C14", std::time::Duration::from_secs(10));
+    watchdog::spawn_monitor("C14", std::time::Duration::from_secs(60));
     if let Some(case) = ctx.replay_case() {
         let buf = unhex(case["buf"].as_str().unwrap_or(""));
         let start = case["start"].as_u64().unwrap_or(0) as usize;
